@@ -2,7 +2,7 @@
 import importlib
 import os
 
-EXTRACTORS = []   # module names under harness.extract, each with generate() -> (path, text, problems)
+EXTRACTORS = ["natives"]   # module names under harness.extract, each with generate() -> (path, text, problems)
 
 
 def regenerate_all():
